@@ -68,7 +68,7 @@ def validate(ck, module, cfg, events, wdir, tag="trace", max_rejections=20, shar
     return accepted, rejected
 
 
-def judge(ck, module, cfg, events, wdir, tag="batch", shard=20000, timeout=1200, env=None):
+def judge(ck, module, cfg, events, wdir, tag="batch", shard=20000, timeout=1200, env=None, jobs=1):
     """Batch judging: every event is one case; the trace spec consumes all of
     them and prints "VP|fail|<case>" for those the specification rejects.
     Returns {failed case id: [tags]}. The whole file must be consumed."""
@@ -83,13 +83,19 @@ def judge(ck, module, cfg, events, wdir, tag="batch", shard=20000, timeout=1200,
         cur.append(ev)
     if cur:
         parts.append(cur)
-    for si, part in enumerate(parts):
+    def one(si_part):
+        si, part = si_part
         path = os.path.join(wdir, "%s.%d.ndjson" % (tag, si))
         common.write_ndjson(path, part)
         e = {"TRACE": path}
         if env:
             e.update(env)
-        r = common.tlc(module, cfg, wdir, env=e, dfs=True, timeout=timeout)
+        return common.tlc(module, cfg, os.path.join(wdir, "tlc%d" % (si % 64)), env=e, dfs=True, timeout=timeout)
+
+    import concurrent.futures
+    with concurrent.futures.ThreadPoolExecutor(max_workers=max(1, jobs)) as ex:
+        outs = list(ex.map(one, list(enumerate(parts))))
+    for r in outs:
         ck.add_tlc(r)
         if not r.ok:
             raise common.ToolError("batch trace not fully consumed (%s):\n%s" % (r.violated, r.out[-2000:]))
